@@ -17,10 +17,10 @@ import (
 	"github.com/nspcc-dev/neo-go/pkg/core/interop/interopnames"
 	"github.com/nspcc-dev/neo-go/pkg/core/native/nativenames"
 	"github.com/nspcc-dev/neo-go/pkg/core/state"
+	"github.com/nspcc-dev/neo-go/pkg/core/storage"
 	"github.com/nspcc-dev/neo-go/pkg/core/transaction"
 	"github.com/nspcc-dev/neo-go/pkg/crypto/keys"
 	"github.com/nspcc-dev/neo-go/pkg/neotest"
-	"github.com/nspcc-dev/neo-go/pkg/neotest/chain"
 	"github.com/nspcc-dev/neo-go/pkg/smartcontract"
 	"github.com/nspcc-dev/neo-go/pkg/smartcontract/callflag"
 	"github.com/nspcc-dev/neo-go/pkg/smartcontract/manifest"
@@ -29,7 +29,7 @@ import (
 	"github.com/nspcc-dev/neo-go/pkg/util"
 	"github.com/nspcc-dev/neo-go/pkg/wallet"
 	"github.com/nspcc-dev/neo-go/verifharness/vlib/ev"
-	"go.uber.org/zap"
+	"github.com/nspcc-dev/neo-go/verifharness/vlib/vchain"
 )
 
 // detKey derives a private key from the run seed and a label, so that every
@@ -66,6 +66,33 @@ type env struct {
 	natives map[string]*state.Contract // by name, manifests as active at the chain's height
 	probeMf *manifest.Manifest
 	probeNF []byte
+	store   *vchain.RecStore
+	closer  *sync.Once
+}
+
+// restart stops the node gracefully (which persists everything) and opens a
+// new Blockchain on the same database: all caches, the ContractManagement one
+// included, are rebuilt from what was stored.
+func (v *env) restart() (*env, error) {
+	h := v.bc.BlockHeight()
+	v.closer.Do(v.bc.Close)
+	bc, val, com, err := vchain.OpenChain(v.t, false, hardforkConfig(v.stage), v.store)
+	if err != nil {
+		return nil, err
+	}
+	n := *v
+	n.bc, n.val, n.com = bc, val, com
+	n.e = neotest.NewExecutor(v.t, bc, val, com)
+	n.e.DisableCoverage()
+	n.closer = &sync.Once{}
+	cl := n.closer
+	v.t.Cleanup(func() { cl.Do(bc.Close) })
+	if bc.BlockHeight() != h {
+		return nil, fmt.Errorf("restarted node is at height %d, was at %d", bc.BlockHeight(), h)
+	}
+	n.natives = map[string]*state.Contract{}
+	n.refreshNatives()
+	return &n, nil
 }
 
 func (v *env) name(h util.Uint160) string {
@@ -124,13 +151,20 @@ func hardforkConfig(stage string) func(*config.Blockchain) {
 }
 
 func newEnv(t testing.TB, stage string) *env {
-	bc, val, com := chain.NewMultiWithOptions(t, &chain.Options{
-		Logger:               zap.NewNop(),
-		BlockchainConfigHook: hardforkConfig(stage),
-	})
+	// The store outlives the Blockchain (Close is a no-op on it), so that the
+	// node can be restarted on its database.
+	st := vchain.NewRecStore(storage.NewMemoryStore(), false)
+	bc, val, com, err := vchain.OpenChain(t, false, hardforkConfig(stage), st)
+	if err != nil {
+		t.Fatalf("cannot create chain: %v", err)
+	}
 	e := neotest.NewExecutor(t, bc, val, com)
 	e.DisableCoverage()
 	v := &env{t: t, stage: stage, bc: bc, e: e, val: val, com: com, names: map[util.Uint160]string{}, natives: map[string]*state.Contract{}}
+	v.store = st
+	v.closer = &sync.Once{}
+	cl := v.closer
+	t.Cleanup(func() { cl.Do(bc.Close) })
 	v.user = detSigner("user")
 	v.other = detSigner("other")
 	v.names[v.user.ScriptHash()] = "user"
